@@ -42,6 +42,18 @@ theorem self_mem_subtrees (t : Step) : t ∈ subtrees t := by
   cases t with
   | mk i pre ds => simp [subtrees]
 
+theorem mem_subtreesL {d : Step} {ds : List Step} (h : d ∈ ds) : d ∈ subtreesL ds := by
+  induction ds with
+  | nil => cases h
+  | cons x xs ih =>
+    simp only [subtreesL, List.mem_append]
+    rcases List.mem_cons.mp h with h | h
+    · left; rw [h]; exact self_mem_subtrees _
+    · right; exact ih h
+
+theorem path_mem_pathsL {d : Step} {ds : List Step} (h : d ∈ ds) : d.path ∈ pathsL ds :=
+  List.mem_map.mpr ⟨d, mem_subtreesL h, rfl⟩
+
 /-! ## well-formedness needed by the invariant -/
 
 /-- local conditions of one step -/
@@ -142,17 +154,19 @@ structure Hyp (E : Env) (dev : Bool) (cfg : Cfg) : Prop where
   devMode : cfg.cleanBuild = false → dev = true
 
 theorem cookBuild_keeps {cfg : Cfg} (hy : Hyp E dev cfg) (i : Info) (ds : List Step) (hk : i.sig.kind = .build)
+    (hacyc : ∀ d ∈ ds, d.path ≠ i.path)
     (S : List Path) (hp : i.path ∈ S) : Keeps E dev Γ S (cookBuild E cfg i ds) := by
   intro r hr
-  refine wp_mono _ _ _ _ _ _ ?_ (fun _ hx => hx) (cookBuild_truthful hy.fixB hy.inj cfg hy.devMode i ds hk r hr)
-  intro _ r' ⟨h1, _, h3⟩
+  refine wp_mono _ _ _ _ _ _ ?_ (fun _ hx => hx) (cookBuild_truthful hy.fixB hy.inj cfg hy.devMode i ds hk hacyc r hr)
+  intro _ r' ⟨h1, _, h3, _⟩
   exact ⟨h1, touch_of_agree hp h3⟩
 
 theorem cookCheckout_keeps {cfg : Cfg} (hy : Hyp E dev cfg) (i : Info) (ds : List Step) (hwf : CoWF Γ i ds)
-    (hk : i.sig.kind = .checkout) (S : List Path) (hp : i.path ∈ S) : Keeps E dev Γ S (cookCheckout E cfg i ds) := by
+    (hk : i.sig.kind = .checkout) (hacyc : ∀ d ∈ ds, d.path ≠ i.path)
+    (S : List Path) (hp : i.path ∈ S) : Keeps E dev Γ S (cookCheckout E cfg i ds) := by
   intro r hr
-  refine wp_mono _ _ _ _ _ _ ?_ (fun _ hx => hx) (cookCheckout_truthful hy.inj cfg i ds hwf hk r hr)
-  intro _ r' ⟨h1, _, h3⟩
+  refine wp_mono _ _ _ _ _ _ ?_ (fun _ hx => hx) (cookCheckout_truthful hy.inj cfg i ds hwf hk hacyc r hr)
+  intro _ r' ⟨h1, _, h3, _⟩
   exact ⟨h1, touch_of_agree hp h3⟩
 
 /-- the statements proved simultaneously by induction over the step tree -/
@@ -198,6 +212,10 @@ theorem kstep_mk {cfg : Cfg} (hy : Hyp E dev cfg) (i : Info) (pre ds : List Step
   obtain ⟨hl1, hl2⟩ := hds wds
   have hself : i.path ∈ paths (.mk i pre ds) := by rw [paths_mk]; simp
   have subds : ∀ q, q ∈ pathsL ds → q ∈ paths (.mk i pre ds) := by intro q hq; rw [paths_mk]; simp [hq]
+  have hacyc : ∀ d ∈ ds, d.path ≠ i.path := by
+    intro d hd heq
+    have h1 : i.path ∉ pathsL ds := by simpa [Step.path, Step.info, Step.deps] using wt.acyc
+    exact h1 (heq ▸ path_mem_pathsL hd)
   have hprep : Keeps E dev Γ (paths (.mk i pre ds)) (preparePackage i ds) := by
     intro r hr
     refine wp_mono _ _ _ _ _ _ ?_ (fun _ hx => hx) (preparePackage_truthful (E := E) (dev := dev) (Γ := Γ) hy.fixP i ds r hr)
@@ -224,7 +242,7 @@ theorem kstep_mk {cfg : Cfg} (hy : Hyp E dev cfg) (i : Info) (pre ds : List Step
           | false =>
             simp only [Bool.false_eq_true, if_false]
             apply keeps_seq
-            · exact cookCheckout_keeps hy i ds (wt.co (by simp [Step.kind, Step.info, hk])) hk _ hself
+            · exact cookCheckout_keeps hy i ds (wt.co (by simp [Step.kind, Step.info, hk])) hk hacyc _ hself
             · exact keeps_setAlreadyRun _ _ _ _
       | build =>
         simp only []
@@ -241,7 +259,7 @@ theorem kstep_mk {cfg : Cfg} (hy : Hyp E dev cfg) (i : Info) (pre ds : List Step
             | false =>
               simp only [Bool.not_false, if_true]
               exact keeps_seq (keeps_mono subds hl2)
-                (keeps_seq (cookBuild_keeps hy i ds hk _ hself) (keeps_setAlreadyRun _ _ _ _))
+                (keeps_seq (cookBuild_keeps hy i ds hk hacyc _ hself) (keeps_setAlreadyRun _ _ _ _))
       | package =>
         simp only []
         cases co with
@@ -283,7 +301,7 @@ theorem kstep_mk {cfg : Cfg} (hy : Hyp E dev cfg) (i : Info) (pre ds : List Step
                 · left; show r3.st.disk i.path = none; rw [e4]; exact hq
                 · right; show r3.st.dirStates i.path = _; rw [e3]; exact hq)
             refine wp_mono _ _ _ _ _ _ ?_ (fun _ hx => hx) this
-            intro _ r4 ⟨ht4, _, ha4⟩
+            intro _ r4 ⟨ht4, _, ha4, _⟩
             apply wp_setAlreadyRun
             intro m'
             exact ⟨ht4, hfr.trans (touch_of_agree hself ha4)⟩
